@@ -54,7 +54,8 @@ def exc_sig(e):
 # bases
 # ---------------------------------------------------------------------------------------------
 
-BASES = ["1d_int", "1d_float", "1d_gapped", "1d_adaptive", "2d", "2d_adaptive", "2d_gap_axis1", "3d", "collection"]
+BASES = ["1d_int", "1d_float", "1d_gapped", "1d_adaptive", "2d", "2d_adaptive", "2d_gap_axis1", "3d", "collection",
+         "1d_adaptive_empty", "2d_adaptive_empty", "2d_int_nokeep", "1d_int_nokeep"]
 
 
 def make_base(name):
@@ -78,6 +79,21 @@ def make_base(name):
         return h2(np.array([0.5, 1.5, 1.5]), np.array([0.5, 0.5, 2.5]), [np.array([0.0, 1.0, 2.0]), StaticBinning(np.array([[0.0, 1.0], [2.0, 3.0]]))])
     if name == "3d":
         return h3(np.array([[0.5, 0.5, 0.5], [1.5, 0.5, 2.5], [1.5, 0.5, 2.5]]), [np.array([0.0, 1.0, 2.0]), np.array([0.0, 1.0]), np.array([0.0, 1.0, 2.0, 3.0])])
+    if name == "1d_adaptive_empty":
+        # no bins yet; every history looks at it (observe) before the first value arrives
+        return h1(None, "fixed_width", bin_width=1.0, adaptive=True)
+    if name == "2d_adaptive_empty":
+        return h2(None, None, "fixed_width", bin_width=[1.0, 1.0], adaptive=True)
+    if name == "2d_int_nokeep":
+        # built by the class constructor: integer contents, missed entries not recorded
+        from physt.histogram_nd import Histogram2D
+
+        return Histogram2D([StaticBinning(np.array([0.0, 1.0, 2.0])), StaticBinning(np.array([0.0, 0.5, 2.0, 3.0]))],
+                           frequencies=np.array([[1, 0, 2], [0, 3, 1]]), keep_missed=False)
+    if name == "1d_int_nokeep":
+        from physt.histogram1d import Histogram1D
+
+        return Histogram1D(StaticBinning(np.array([0.0, 1.0, 2.0, 4.0])), frequencies=np.array([2, 0, 1]), keep_missed=False)
     if name == "collection":
         edges = np.array([0.0, 1.0, 2.0, 3.0])
         a = h1(np.array([0.5, 1.5]), edges.copy(), name="m0")
@@ -116,7 +132,7 @@ def first_axis_point(o, where="inside"):
 # ---------------------------------------------------------------------------------------------
 
 VALID = ["fill_inside", "fill_above", "fill_below", "fill_edge", "fill_weighted", "fill_heavy", "fill_n", "fill_n_weighted", "iadd_copy", "isub_empty", "isub_half",
-         "imul2", "idiv2", "merge2", "normalize", "dtype_float"]
+         "imul2", "idiv2", "merge2", "normalize", "dtype_float", "iadd_float_copy", "imul_half"]
 VALID_COL = ["col_add", "col_member_fill", "col_create"]
 
 
@@ -167,6 +183,12 @@ def apply_valid(o, name, ref=None):
         with warnings.catch_warnings():
             warnings.simplefilter("ignore")
             o -= o / 2
+    elif name == "iadd_float_copy":
+        other = o.copy()
+        other.set_dtype(np.float64)
+        o += other
+    elif name == "imul_half":
+        o *= 0.5
     elif name == "imul2":
         o *= 2
     elif name == "idiv2":
@@ -245,6 +267,7 @@ def faults(o):
         return f
 
     arr = lambda: np.full(o.shape, 2.0)  # noqa: E731
+    some = bool(np.any(np.asarray(o.frequencies) > 0))  # a negative factor only has to be refused when it would leave a negative content
     fs = [
         ("iadd_other_bins", iop("+", lambda: other_bins_hist(o)), True),
         ("iadd_other_dim", iop("+", lambda: other_dim_hist(o)), True),
@@ -256,15 +279,15 @@ def faults(o):
         ("isub_larger", iop("-", lambda: larger_hist(o)), True),
         ("isub_other_bins", iop("-", lambda: other_bins_hist(o)), True),
         ("isub_array", iop("-", arr), True),
-        ("imul_negative", iop("*", -1), True),
-        ("imul_negative_float", iop("*", -0.5), True),
+        ("imul_negative", iop("*", -1), some),
+        ("imul_negative_float", iop("*", -0.5), some),
         ("imul_array", iop("*", arr), True),
         ("imul_list", iop("*", lambda: arr().tolist()), True),
         ("imul_str", iop("*", "2"), True),
         ("imul_hist", iop("*", lambda: o.copy()), True),
         ("imul_none", iop("*", None), True),
         ("idiv_zero", iop("/", 0), False),
-        ("idiv_negative", iop("/", -2), True),
+        ("idiv_negative", iop("/", -2), some),
         ("idiv_array", iop("/", arr), True),
         ("idiv_str", iop("/", "2"), True),
         ("idiv_hist", iop("/", lambda: o.copy()), True),
@@ -514,7 +537,7 @@ def run_unit(unit, ctx):
     o0 = make_base(base)
     vops = valid_ops(o0)
     first = unit["first"]
-    second = [v for v in vops if v in ("fill_above", "fill_weighted", "fill_heavy", "fill_n_weighted", "iadd_copy", "idiv2", "merge2", "col_add", "col_member_fill")]
+    second = [v for v in vops if v in ("fill_above", "fill_weighted", "fill_heavy", "fill_n_weighted", "iadd_copy", "iadd_float_copy", "idiv2", "merge2", "col_add", "col_member_fill")]
     prefixes = [[]] if first is None else [[first]] + [[first, v] for v in second]
     follows = [v for v in vops if v in ("fill_inside", "fill_above", "fill_n_weighted", "iadd_copy", "imul2", "merge2", "normalize", "col_add", "col_member_fill", "col_create")]
     k = 0
